@@ -2,12 +2,12 @@ package main
 
 import (
 	"bytes"
-	"os/exec"
 	"fmt"
 	"go/ast"
 	"go/printer"
 	"go/token"
 	"os"
+	"os/exec"
 	"path/filepath"
 	"runtime"
 	"runtime/debug"
